@@ -328,6 +328,25 @@ theorem generated_reader_full_iff : SimpleRoundtripFull Gen.simpleReader ↔ Gen
   · exact ⟨fun hf => absurd hf simple_full_coded_counterexample, fun hv => by simp [codedReader] at hv⟩
   · exact ⟨fun _ => rfl, fun _ => simple_full_repaired⟩
 
+/-- **`writer_words_resolved_in_own_registry`**: every type word `ControlAction.__str__` / `ValueCondition.__str__` write for a node kind
+(JUNCTION, TANK, RESERVOIR) is resolved by `from_dict`'s helper in the NODE registry, every word of a link kind in the link
+registry -- also when a node and a link share the name (tank '3' and pipe '3').  The word tables are read by `ast` from the helper
+and by reflection from the writers on every run. -/
+theorem writer_words_resolved_in_own_registry :
+    Gen.elemReader.present = false ∨ (Gen.writerWords.all fun w => Gen.elemReader.resolvesNode w.1 == w.2) = true := by
+  decide +kernel
+
+/-- the model's `isNodeWord` is the helper's decision on every word the writers emit, and the writers emit the words of `Kind.word` -/
+theorem reader_words_are_model :
+    Gen.elemReader.present = false ∨
+      ((Gen.writerWords.all fun w => isNodeWord w.1 == Gen.elemReader.resolvesNode w.1) = true ∧
+       Gen.writerWords = [("JUNCTION", true), ("TANK", true), ("RESERVOIR", true), ("PIPE", false), ("PUMP", false), ("VALVE", false)]) := by
+  decide +kernel
+
+/-- a helper whose node tuple forgets TANK and falls back on the name (link first) resolves `TANK 3 …` on pipe '3' -/
+example : ({ present := true, nodeWords := ["NODE", "JUNCTION", "RESERVOIR"], linkWords := ["LINK", "PIPE", "PUMP", "VALVE"],
+             nameFallback := true, defaultIsLink := false } : ElemReader).resolvesNode "TANK" = false := by decide
+
 /-- a faithful reader has to look at every informative token; the coded one does not look at the attribute words -/
 theorem readsAll_iff_repaired : Gen.simpleReader.readsAll = !Gen.simpleReader.viaControlLine := by
   rcases generated_reader_known with h | h <;> rw [h] <;> decide
@@ -340,8 +359,9 @@ namespace Wntr.Schema.Setters
 variable {V : Type}
 
 /-- **`generated_setters_idempotent`**: no property setter of base.py / elements.py and no `__setattr__` of an option group does
-anything to its argument but transformations that fix their own image (decided on the table read by `ast` on every run;
-a setter doing arithmetic on its argument, or calling something unknown, is listed here by name) -/
+anything to its argument but transformations that fix their own image, and none computes the stored value from ANOTHER field
+of the object (`readsOther`: the result would depend on the order in which `from_dict` / `__init__` assign) -- decided on the table
+read by `ast` on every run; an offending setter is listed here by name -/
 theorem generated_setters_idempotent : suspicious Gen.setterRows = [] := by decide +kernel
 
 theorem abs_int_idem (z : Int) : (if (if z < 0 then -z else z) < 0 then -(if z < 0 then -z else z) else (if z < 0 then -z else z)) = (if z < 0 then -z else z) := by
@@ -408,6 +428,8 @@ theorem nonidempotent_setter_counterexample :
 
 /-- the table condition is not vacuous: a row with arithmetic on the argument is listed -/
 example : suspicious [{ cls := "Pipe", key := "length", atoms := [.toFloat, .other], validates := false }] = [("Pipe", "length")] := by decide
+/-- `rule_timestep = min(value, self.hydraulic_timestep)`: clamped against a field that `__init__` assigns BEFORE it -/
+example : suspicious [{ cls := "TimeOptions", key := "*", atoms := [.clip, .toInt, .readsOther], validates := true }] = [("TimeOptions", "*")] := by decide
 example : (Gen.setterRows.any fun r => r.cls == "TimeOptions" && r.atoms.contains .clip) = true := by decide +kernel
 
 end Wntr.Schema.Setters
